@@ -63,6 +63,39 @@ def run(ctx, progs, tag="sema"):
     return recs, stats
 
 
+def chain_agree(ctx, progs, tag="chainx"):
+    """per text: does the WHOLE pipeline inside the model (lexer, parser, events, builder, accessors, pass) give the
+    implementation's result?  True / False / None (outside the model's domain: escape diagnostics, BAD-AST)"""
+    if not progs:
+        return []
+    lines = [G.enc(t) for t in progs]
+    ucpath, _ = G.uclass_table(ctx, progs, C)
+    isema = C.run_impl(ctx, "sema", lines, tag=tag + "-isema")
+    itree = C.run_impl(ctx, "tree", lines, tag=tag + "-itree")
+    mtree = C.run_model(ctx, ["tree", ucpath], lines, tag=tag + "-mtree")
+    mast = C.run_model(ctx, "accessors", mtree, tag=tag + "-macc")
+    idx = [i for i, a in enumerate(mast) if a.startswith("(Program")]
+    msema = dict(zip(idx, C.run_model(ctx, "sema", [mast[i] for i in idx], tag=tag + "-msema")))
+    out = []
+    for i, t in enumerate(progs):
+        a = isema[i]
+        f = PL.fields(itree[i]) if not PL.canon_panic(itree[i]) else {}
+        if any(x.split(":", 1)[1].startswith(PL.UNESCAPE_MSGS) for x in f.get("clerrors", "").split(",") if ":" in x):
+            out.append(None); continue
+        m = "SYNTAX-ERRORS" if mast[i].startswith("SYNTAX") else (msema[i] if i in msema else mast[i])
+        if m.startswith("BAD-AST"):
+            out.append(None); continue
+        pa, pb = PL.canon_panic(a), PL.canon_panic(m)
+        if m.startswith("NO-TREE"):
+            same = pa is not None
+        elif pa or pb:
+            same = pa == pb
+        else:
+            same = a == m or (a.startswith("SYNTAX") and m.startswith("SYNTAX"))
+        out.append(same)
+    return out
+
+
 def run_chain(ctx, progs, tag="chain"):
     """The WHOLE pipeline inside the model: text -> model `tree` (lexer, parser, events, builder) -> model
     `accessors` (typed AST) -> model `sema`, against the implementation's `sema` on the same text.  Cases whose
